@@ -23,12 +23,12 @@ const Bufsiz = 2 // must match cmd/c10/bufsiz
 
 type cfg struct {
 	Refilter bool // after the stream: Refilter a stalled direct filtered subscription so that it emits more events than its buffer holds
-	Name    string
-	Tree    []hx.Spec
-	Stalled map[string]bool // node paths whose consumer / handler is stalled
-	K       int
-	Mode    string
-	Bound   int
+	Name     string
+	Tree     []hx.Spec
+	Stalled  map[string]bool // node paths whose consumer / handler is stalled
+	K        int
+	Mode     string
+	Bound    int
 }
 
 // stream: versions increase; labels alternate so that a filtered clone (l=1) sees creates and deletes
@@ -69,15 +69,15 @@ func stream(k int) []kcache.Event {
 }
 
 type inst struct {
-	c        cfg
-	root     *hx.Root
-	nodes    []*hx.Node
-	acks     chan string
-	release  chan struct{} // closed when the stream has ended: stalled consumers start draining
-	healthy  int
-	finished bool
+	c                  cfg
+	root               *hx.Root
+	nodes              []*hx.Node
+	acks               chan string
+	release            chan struct{} // closed when the stream has ended: stalled consumers start draining
+	healthy            int
+	finished           bool
 	rootList, wantList string
-	clock    int64
+	clock              int64
 }
 
 func (in *inst) handler(n *hx.Node) kcache.Handler {
